@@ -1198,8 +1198,8 @@ def run_cross(seed, tier):
     rng.shuffle(pairs)
     last = base
     for n, (sa, sb, first) in enumerate(pairs[:limit]):
-        if _late():
-            break
+        if n >= 2 and _late():
+            break                                  # (the first two pairs are run even on a loaded machine)
         p = copy.deepcopy(base)
         p['config']['first'] = first
         p['config']['directed_at'] = ['cross', sa, sb, first]
